@@ -62,7 +62,7 @@ PROP = dict(
                  "block times are whole seconds in the harness (the code truncates elapsed time to whole seconds)",
                  "emergency shutdown of the app: the iterator's ESM branch is modelled and driven (price band for every initiator kind, "
                  "TriggerEsm for vault-initiated auctions); the exact ledger theorems cover shutdown blocks for lend- / externally initiated "
-                 "auctions only (TriggerEsm pays the proceeds out while the auction stays open: finding D35); kill switch: C14"],
+                 "auctions only (TriggerEsm pays the proceeds out while the auction stays open: finding D39); kill switch: C14"],
     rule="pure part: each line is one call of a real price helper or one real price update on a stored auction of either generation "
          "(boundary and random start prices, discounts, windows, elapsed times 0, 1, T/3, T/2, T-1, T, beyond); sequence part: each case is "
          "one position seized by the real liquidationsV2 keeper (vault sweep, keeper message, external liquidation or lend borrow; five asset pairs with "
@@ -93,5 +93,5 @@ META = dict(
          "not driven); second-generation lend close takes penalty / reserve interest / bridge amount as values read from the lend stores. The exact "
          "V2 ledger theorems carry 'at most one limit bid per premium' because the code is wrong without it (D7); debt_custody_every_history "
          "states what holds without it. First-generation lend custody is exact only up to the unpaid bonus pot (D32). Emergency shutdown: the "
-         "iterator's branch is modelled; TriggerEsm repeats every block (D35).",
+         "iterator's branch is modelled; TriggerEsm repeats every block (D39).",
 )
